@@ -63,6 +63,7 @@ impl Prop for SortP {
                 let (c, r) = if self.by_row { (k, o) } else { (o, k) };
                 let recvs = vec![
                     Recv::owned(c, r),
+                    Recv::owned_spare(c, r),
                     Recv::window(c + 2, r + 2, (1, 1), (1 + c, 1 + r)),
                     Recv::window(c + 1, r, (1, 0), (1 + c, r)),
                     Recv::foreign_owned(c, r),
@@ -84,6 +85,9 @@ impl Prop for SortP {
         v.push("empty".into());
         for (c, r) in crate::engine::util::shapes(3) {
             v.push(format!("zst {}x{}", c, r));
+            if c > 0 {
+                v.push(format!("owning {}x{}", c, r));
+            }
         }
         // long key lines: std's unstable sort is an insertion sort (hence accidentally stable) up to 20
         // elements, so instability can only be observed beyond that length
@@ -114,6 +118,11 @@ impl Prop for SortP {
             super::ops::zst_panic_differential(c, r, &ops, ctx);
             return;
         }
+        if let Some(dims) = unit.strip_prefix("owning ") {
+            let (c, r) = dims.split_once('x').unwrap();
+            self.run_owning(c.parse().unwrap(), r.parse().unwrap(), ctx);
+            return;
+        }
         let (r, part) = unit.rsplit_once(' ').unwrap();
         let rd = Recv::parse(r);
         if part == "wide" {
@@ -129,6 +138,7 @@ impl Prop for SortP {
             "cells are (key, unique tag) pairs whose Ord/Eq look at the key only; for every shape in the bound the key {line} ranges over ALL of {{0..k-1}}^k (every tie pattern and every permutation, hence every input of the permutation-to-swaps routine), every {idx} index 0..=dim (dim itself is out of range), every entry point of the family \
              ({variants}); additionally key lines of length 21, 24, 33, 40 and 48 from an enumerated tie-rich family k[i] = (i*a+b) mod m (std's unstable sort is an insertion sort, hence accidentally stable, up to 20 elements), on owned arrays, interior and edge windows of a larger parent, a window of a window, a view over a longer slice, and a third-party implementor using the trait defaults. \
              Oracle: the key {line} is ordered by the comparison / key function; the multiset of whole {whole} (as tag vectors) is preserved, i.e. every original {whole_s} appears intact exactly once; the stable variants equal the model's stable sort exactly; the parent outside a window is unchanged; an out-of-range index panics and changes nothing. \
+             Arrays (exact and spare capacity) and windows of elements that own a resource (drop ledger): after the sort every cell is a live element, the elements are the original ones (by identity), whole {whole} intact, and dropping the array drops each exactly once. \
              Arrays and windows of the zero-sized () must accept and reject exactly the same indices as arrays of ordinary elements. A case is (receiver, key line, index, entry point); non-trivial = in-range index; distinct by the tuple.",
             line = line,
             whole = whole,
@@ -170,6 +180,105 @@ impl SortP {
                     }
                 },
             );
+        }
+    }
+
+    /// Elements that own a resource: the sort must move, never duplicate or drop, them.
+    fn run_owning(&self, c: usize, r: usize, ctx: &mut Ctx) {
+        use crate::engine::ledger::{self, Tracked};
+        use toodee::{SortOps, TooDeeOpsMut};
+        let (k, dim_idx) = if self.by_row { (c, r) } else { (r, c) };
+        fn sort_tracked<X: SortOps<Tracked>>(x: &mut X, var: u8, i: usize) {
+            match var {
+                0 => x.sort_row_ord::<()>(i),
+                1 => x.sort_unstable_row_ord::<()>(i),
+                2 => x.sort_by_row(i, |a, b| a.label.cmp(&b.label)),
+                3 => x.sort_unstable_by_row(i, |a, b| a.label.cmp(&b.label)),
+                4 => x.sort_by_row_key(i, |a| a.label),
+                5 => x.sort_unstable_by_row_key(i, |a| a.label),
+                6 => x.sort_col_ord::<()>(i),
+                7 => x.sort_by_col(i, |a, b| a.label.cmp(&b.label)),
+                8 => x.sort_unstable_by_col(i, |a, b| a.label.cmp(&b.label)),
+                9 => x.sort_by_col_key(i, |a| a.label),
+                _ => x.sort_unstable_by_col_key(i, |a| a.label),
+            }
+        }
+        for line in key_lines(k) {
+            for idx in 0..dim_idx {
+                for var in self.variants() {
+                    for kind in 0..3u8 {
+                        ctx.case(
+                            || format!("TooDee<Tracked> {}x{} ({}) keys {:?} {}({})", c, r, ["exact capacity", "spare capacity", "interior window"][kind as usize], line, SORT_NAMES[var as usize], idx),
+                            |cs| {
+                                cs.nontrivial((c, r, kind, &line, idx, var));
+                                cs.outcome("sorted");
+                                let (pc, pr, off) = if kind == 2 { (c + 2, r + 1, (1usize, 1usize)) } else { (c, r, (0, 0)) };
+                                let live0 = ledger::live_count();
+                                let mut p: TooDee<Tracked> = TooDee::from_vec(pc, pr, (0..pc * pr).map(|i| Tracked::new(100 + i as u32)).collect());
+                                for (j, key) in line.iter().enumerate() {
+                                    let (x, y) = if self.by_row { (off.0 + j, off.1 + idx) } else { (off.0 + idx, off.1 + j) };
+                                    p[(x, y)].label = *key as u32;
+                                }
+                                if kind == 1 {
+                                    p.reserve(2 * c + 3);
+                                }
+                                let ids = |p: &TooDee<Tracked>| -> Vec<Vec<u64>> {
+                                    // whole lines of the sorted region, by identity
+                                    if self.by_row {
+                                        (0..c).map(|x| (0..r).map(|y| p[(off.0 + x, off.1 + y)].id).collect()).collect()
+                                    } else {
+                                        (0..r).map(|y| (0..c).map(|x| p[(off.0 + x, off.1 + y)].id).collect()).collect()
+                                    }
+                                };
+                                let all_before: Vec<u64> = p.data().iter().map(|e| e.id).collect();
+                                let mut lines_before = ids(&p);
+                                let res = guarded(|| {
+                                    if kind == 2 {
+                                        sort_tracked(&mut p.view_mut(off, (off.0 + c, off.1 + r)), var, idx)
+                                    } else {
+                                        sort_tracked(&mut p, var, idx)
+                                    }
+                                });
+                                if let Err(m) = res {
+                                    cs.fail("sort:panics-on-valid", format!("valid index but the call panicked: {}", m));
+                                    std::mem::forget(p);
+                                    return;
+                                }
+                                if p.size() != (pc, pr) || p.data().len() != pc * pr {
+                                    cs.fail("sort:shape-changed", format!("size {:?} over {} cells after the sort", p.size(), p.data().len()));
+                                    std::mem::forget(p);
+                                    return;
+                                }
+                                if p.data().iter().any(|e| !e.valid()) {
+                                    cs.fail("sort:dead-cell", "after the sort a cell holds an element that was already dropped (or was never constructed)".into());
+                                    std::mem::forget(p);
+                                    return;
+                                }
+                                let mut all_after: Vec<u64> = p.data().iter().map(|e| e.id).collect();
+                                let mut lines_after = ids(&p);
+                                let mut sorted_before = all_before.clone();
+                                sorted_before.sort_unstable();
+                                all_after.sort_unstable();
+                                lines_before.sort();
+                                lines_after.sort();
+                                if sorted_before != all_after || lines_before != lines_after {
+                                    cs.fail("sort:lines-not-preserved", "the elements after the sort are not the original elements in intact lines (by identity)".into());
+                                    std::mem::forget(p);
+                                    return;
+                                }
+                                drop(p);
+                                let (dd, gd, first) = ledger::problems();
+                                if dd + gd > 0 {
+                                    cs.fail("sort:double-drop", format!("{} double / {} garbage drops: {}", dd, gd, first.unwrap_or_default()));
+                                }
+                                if ledger::live_count() != live0 {
+                                    cs.fail("sort:leak", format!("{} elements were never dropped", ledger::live_count() - live0));
+                                }
+                            },
+                        );
+                    }
+                }
+            }
         }
     }
 
